@@ -156,22 +156,38 @@ def corrupt_use(run):
     return None
 
 
-def _selftest_any(ctx, files, mutate, what, limit=60):
-    for f in files[:limit]:
-        try:
-            ctx.selftest_corrupt(TRACE, f, mutate, what)
-            return
-        except vlib.ToolError as e:
-            if "no run suitable" in str(e):
-                continue
-            raise
-    raise vlib.ToolError("binding self-test: no run suitable for corruption (%s)" % what)
+def _selftests(ctx, specs, limit=60):
+    """binding self-tests, validated in parallel: specs = [(files, mutate, what)]; for each, the first run
+    the corruption applies to is corrupted and must be REJECTED by the trace specification"""
+    jobs = []
+    for n, (files, mutate, what) in enumerate(specs):
+        mutated = None
+        for f in files[:limit]:
+            for run in vlib.split_runs(vlib.read_ndjson(f)):
+                mutated = mutate([json.loads(json.dumps(e)) for e in run])
+                if mutated is not None:
+                    break
+            if mutated is not None:
+                break
+        if mutated is None:
+            raise vlib.ToolError("binding self-test: no run suitable for corruption (%s)" % what)
+        p = os.path.join(ctx.work, "selftest-%02d.ndjson" % n)
+        vlib.write_ndjson(p, mutated)
+        jobs.append((p, what))
+    with cf.ThreadPoolExecutor(max_workers=6) as ex:
+        results = list(ex.map(lambda j: vlib.validate_one(TRACE, j[0]), jobs))
+    for (p, what), r in zip(jobs, results):
+        ok = (not r["accepted"]) and r["rejected_at"] is not None
+        ctx.cov["selftests"].append({"what": what, "rejected_as_expected": ok, "at": r["rejected_at"]})
+        if not ok:
+            raise vlib.ToolError("binding self-test failed: corrupted trace (%s) was not rejected: %s" % (what, r))
+        vlib.log("self-test ok: %s (rejected at line %s)" % (what, r["rejected_at"]))
 
 
 def run(ctx):
     ctx.build(BIN)
     th = ctx.thorough
-    pool = cf.ThreadPoolExecutor(max_workers=4)
+    pool = cf.ThreadPoolExecutor(max_workers=6)
     # ---- mechanism model: the pinned protocol violates the contract, the repaired one satisfies it
     # (program sets 10.. include the per-thread token cache of fsa/token.rs and the closure-scoped
     # entry points with_reader_token / with_writer_token)
@@ -193,7 +209,7 @@ def run(ctx):
     files = []
     sched_total = 0
     big = 10**9
-    gens = [("fixed_1", big), ("fixed_2", big), ("fixed_3", big), ("fixed_4", big if th else 900),
+    gens = [("fixed_1", big), ("fixed_2", big), ("fixed_3", big), ("fixed_4", big if th else 700),
             ("fixed_6", big if th else 400), ("fixedmulti_4", big if th else 400),
             ("fixed_10", big), ("fixed_11", big if th else 400), ("fixed_12", 6000 if th else 400),
             ("fixed_13", big if th else 400), ("fixed_14", big if th else 400), ("fixedmulti_11", 5000 if th else 300)]
@@ -230,7 +246,11 @@ def run(ctx):
     # ---- seeded random schedules of random programs over every level (token cache, closures, validate,
     # lazy free list), sequential histories (several managers / front-ends / caches), stress
     s_r = ctx.harness(BIN, "rsched", "rsched")
-    s_q = ctx.harness(BIN, "seq", "seq")
+    # (exit code 43: the harness left from inside the vm.release hook because a release callback was
+    # about to run against a destroyed manager - the trace ends with that event and is rejected below)
+    s_q = ctx.harness(BIN, "seq", "seq", allow_fail=True, timeout=300)
+    if s_q["_rc"] not in (0, 43):
+        raise vlib.ToolError("harness c16 --mode seq failed rc=%s\n%s" % (s_q["_rc"], s_q["_stdout"][-2000:]))
     s_s = ctx.harness(BIN, "stress", "stress")
     for s in (s_r, s_q, s_s):
         files += sorted(glob.glob(os.path.join(s["_out"], "*.ndjson")))
@@ -241,9 +261,9 @@ def run(ctx):
     for lv in LEVELS:
         if not s_r.get("per_level", {}).get(lv):
             raise vlib.ToolError("vacuity: level %s never scheduled" % lv)
-        if not s_q.get("stats", {}).get("level:" + lv):
+        if s_q["_rc"] == 0 and not s_q.get("stats", {}).get("level:" + lv):
             raise vlib.ToolError("vacuity: level %s never in a sequential history" % lv)
-    for k in ("scoped_ok", "scoped_err", "scoped_displaces", "acq_cached", "uc_put", "uc_get_hit", "with_version_manager", "validate",
+    for k in () if s_q["_rc"] != 0 else ("scoped_ok", "scoped_err", "scoped_displaces", "acq_cached", "uc_put", "uc_get_hit", "with_version_manager", "validate",
               "use_reader", "use_writer", "reclaim_freed", "epoch_freed", "drain_bulk32"):
         if not s_q.get("stats", {}).get(k):
             raise vlib.ToolError("vacuity: sequential histories never reached '%s'" % k)
@@ -262,25 +282,29 @@ def run(ctx):
         ctx.tool_errors.append("C16-KF1 cache witness process failed (rc=%s)" % s_u2["_rc"])
     files += ufiles2
     ctx.validate(TRACE, files, what="token protocol run")
+    if s_q["_rc"] == 43 and not any(v.get("subject") == "tm:seq" for v in ctx.violations):
+        raise vlib.ToolError("sequential mode left through the emergency exit but its trace was accepted")
     # ---- binding self-tests
     first_sched = [f for f in files if "tok-sched" in f][0]
     sched_files = [f for f in files if "tok-rsched" in f or "tok-sched" in f]
     cache_sched = [f for f in files if "sched_fixed_1" in f and "tok-sched" in f and "sched_fixed_1/" not in f]
     seq_files = [f for f in files if "tok-seq-" in f]
     rs_files = [f for f in files if "tok-rsched" in f]
-    ctx.selftest_corrupt(TRACE, first_sched, corrupt_min, "observed min_version raised above a live token's version")
-    ctx.selftest_corrupt(TRACE, first_sched, corrupt_counts, "active_readers at quiescence +1")
-    _selftest_any(ctx, sched_files, corrupt_second_writer, "refused second writer turned into a granted one")
-    _selftest_any(ctx, cache_sched + rs_files, corrupt_second_scoped_writer, "with_writer_token refused while a writer is live turned into a closure that ran")
-    _selftest_any(ctx, seq_files, corrupt_counts_in_closure, "counters inside a with_*_token closure do not count the closure's token")
-    _selftest_any(ctx, cache_sched + rs_files, corrupt_cached_version, "token handed out of the per-thread cache with another version")
-    _selftest_any(ctx, seq_files, corrupt_cache_get, "TokenCache::get_*_token returned a token with another version")
-    _selftest_any(ctx, rs_files + seq_files, corrupt_validate, "validate_token_version(valid version) = false")
-    _selftest_any(ctx, seq_files + rs_files, corrupt_reclaim, "item handed to the free callback with age >= threshold")
-    _selftest_any(ctx, seq_files + rs_files, corrupt_reclaim_foreign_item, "free callback received an item twice")
-    _selftest_any(ctx, seq_files, corrupt_level_facts, "OneWriteMultiRead reports allows_concurrent_writers")
-    _selftest_any(ctx, seq_files, corrupt_token_valid, "live token of a closure reports is_valid() = false")
-    _selftest_any(ctx, seq_files, corrupt_use, "token lent to insert/lookup/contains_with_token is not a live token")
+    _selftests(ctx, [
+        ([first_sched], corrupt_min, "observed min_version raised above a live token's version"),
+        ([first_sched], corrupt_counts, "active_readers at quiescence +1"),
+        (sched_files, corrupt_second_writer, "refused second writer turned into a granted one"),
+        (cache_sched + rs_files, corrupt_second_scoped_writer, "with_writer_token refused while a writer is live turned into a closure that ran"),
+        (seq_files, corrupt_counts_in_closure, "counters inside a with_*_token closure do not count the closure's token"),
+        (cache_sched + rs_files, corrupt_cached_version, "token handed out of the per-thread cache with another version"),
+        (seq_files, corrupt_cache_get, "TokenCache::get_*_token returned a token with another version"),
+        (rs_files + seq_files, corrupt_validate, "validate_token_version(valid version) = false"),
+        (seq_files + rs_files, corrupt_reclaim, "item handed to the free callback with age >= threshold"),
+        (seq_files + rs_files, corrupt_reclaim_foreign_item, "free callback received an item twice"),
+        (seq_files, corrupt_level_facts, "OneWriteMultiRead reports allows_concurrent_writers"),
+        (seq_files, corrupt_token_valid, "live token of a closure reports is_valid() = false"),
+        (seq_files, corrupt_use, "token lent to insert/lookup/contains_with_token is not a live token"),
+    ])
     # ---- evidence
     cov = ctx.cov
     cov["evaluations"] = sched_total + s_r.get("schedules", 0) + s_q.get("runs", 0) + s_s.get("events", 0) + 1
